@@ -46,8 +46,7 @@ def equivalent_layers(h, p, L, w=None):
     if w is not None:
         w_el = numpy.zeros(L)
 
-    hstep = (h.max()-h.min())/L
-    alt_bins = numpy.arange(h.min(), h.max(), hstep)
+    alt_bins = numpy.linspace(h.min(), h.max(), L, endpoint=False)
     ix = numpy.digitize(h, alt_bins)
     for i in range(L):
         ix_tmp = ix==i+1
